@@ -154,3 +154,31 @@ def register(claim):
           "CGEM clusters) do not support lazy reading.",
           "Lean 4 naturality theorem on the form/content model + structured exploration of the lazy path; AST translator for root_io.py + tie theorems", "DESIGN.md §6 C18, §8")
 
+
+
+# ---- round 4: what was added to each check (appended to the technique / claim texts above) -------------------------------------------
+R4_TECH = {
+    "C01": "; class-layout variants of one class name through the real factory chain in one process",
+    "C02": "; the deprecated alias pybes3.concatenate with repeated files; package glue translated (Props/EntryTie: the besio wrappers forward their arguments unchanged)",
+    "C03": "; one data block larger than 64 MiB; unknown sub-detector ids whose low byte is a known id; package glue translated (Props/EntryTie)",
+    "C04": "; package glue translated (Props/EntryTie: concatenate_raw is raw_io.concatenate itself)",
+    "C05": "; scalar / array mixtures per argument and dtype; in-place refill histories; compiled-loop dispatch history in fresh child processes (recorded finding)",
+    "C06": "; pivot arrays given in cylindrical / re-ordered coordinates; depth-3 views",
+    "C07": "; depth-3 index-selected views; phi0 pairs straddling the 0 / 2 pi wrap in the three-kind closeness comparison",
+    "C08": "; big-endian, Fortran-ordered and transposed array inputs",
+    "C09": "; every accessor group as the first call of a fresh process with an empty numba cache; package glue translated (Props/EntryTie)",
+    "C10": "; the decode relation on the first decoding read of ten fresh processes (1-16 worker threads)",
+    "C11": "; pivot arrays in cylindrical / re-ordered coordinates",
+    "C12": "; the same error matrices in transposed / Fortran-ordered / strided / swapped-axes memory layouts",
+    "C13": "; caller-buffer histories for every constructor argument; package glue translated (Props/EntryTie)",
+    "C14": "; float arguments of mdc_gid_z_to_x/_y in every container kind; big-endian parser inputs called twice on one array object (input unchanged); package glue translated (Props/EntryTie: every public detector name is the home definition of that name)",
+    "C15": "; decoder calls overlapping in time (eight threads, ctypes releases the GIL)",
+    "C17": "; end-to-end run under PYTHONPYCACHEPREFIX",
+    "C18": "; lazy reads of the same collection from two files; compute() in spawned dask worker processes",
+}
+
+
+def register_r4(claimed):
+    for pid, extra in R4_TECH.items():
+        if pid in claimed and extra not in claimed[pid]["technique"]:
+            claimed[pid]["technique"] += extra
